@@ -542,6 +542,21 @@ func (st *c14State) nesting(k int) {
 		st.add("nesting", s)
 		st.flush()
 	}
+	if k == 0 {
+		// error positions computed BACKWARDS from the scan position (position - length of a collected token): a token
+		// of invalid UTF-8 bytes grows by 3 bytes (U+FFFD) per input byte when it is collected rune by rune, so the
+		// subtraction can run past the start of the input. Unquoted runs of 1..40 invalid bytes, as early as possible.
+		for n := 1; n <= 40; n++ {
+			for _, bad := range []string{"\xff", "\x80", "\xc3", "\xe2\x82"} {
+				run := strings.Repeat(bad, n)
+				for _, form := range []string{"S1F1<A%s>.", "S1F1\n<A %s>\n.", "S1F1 W\n<L <A %s 0x41> <J %s> <W %s>>\n.", "S1F1<B %s>.", "S1F1<U1 %s>.", "S1F1<BOOLEAN %s>."} {
+					st.add("backward-position", strings.ReplaceAll(form, "%s", run))
+				}
+			}
+			st.flush()
+		}
+		st.env.Event("backward_position_inputs", 40*4*6)
+	}
 }
 
 const c14LongCount = 10
